@@ -12,6 +12,12 @@ func checkForShadowing(funcs []*provider) error {
 		}
 		for _, tc := range fm.flows[returnParams] {
 			if recevied[tc] {
+				// passing a received value on is not an override, but it is a
+				// return of tc for the providers above: what was received may
+				// have been returned below under another type (Loose)
+				if _, ok := returnedValues[tc]; !ok {
+					returnedValues[tc] = i
+				}
 				continue
 			}
 			from, ok := returnedValues[tc]
